@@ -33,6 +33,7 @@ def run(ctx):
     guard_count(ctx, facts)
     wake_rule(ctx, facts)
     C19.err_adapters(ctx, facts)
+    align(ctx, facts)
     ctx.assume("transport implementations deliver streams to the route they are given; schedule-dependent behaviour (C14) is not decided here")
 
 
@@ -184,3 +185,125 @@ def wake_rule(ctx, facts):
             isbad = (bb, idx) in bad
             ctx.ob("WAKE-1", f"{b.path}#pending{k}", not isbad, "Pending only after delegation / registration" if not isbad else "Pending returned without a registered waker", site_of(b, bb, idx))
     ctx.floor("WAKE-1", "poll fns with explicit Pending on the channel path", n, 5)
+
+
+# ---------------------------------------------------------------------------------------------
+class NoEval(Exception):
+    pass
+
+
+def _prev_pow2(x):
+    if x < 1:
+        return 1
+    p = 1
+    while p * 2 <= x:
+        p *= 2
+    return p
+
+
+def ieval(e, env):
+    e = flow.strip_casts(e)
+    for k, v in env.items():
+        if e == k:
+            return v
+    if e[0] == "const" and isinstance(e[1], int):
+        return e[1]
+    if e[0] == "proj":
+        return ieval(e[1], env)
+    if e[0] == "call":
+        fn = e[1]
+        if re.search(r"(NonZero::<T>::get|NonZeroU32PowerOfTwo::get|to_non_zero_usize|TryFrom::try_from|TryInto::try_into|From::from|Into::into|Result::<T, E>::(unwrap|expect)|Option::<T>::(unwrap|expect))$", fn):
+            return ieval(e[2][0], env)
+        if fn.endswith("non_zero_prev_power_of_two"):
+            return _prev_pow2(ieval(e[2][0], env))
+        if fn.endswith("::next_power_of_two"):
+            x = ieval(e[2][0], env)
+            p = 1
+            while p < x:
+                p *= 2
+            return p
+        if re.search(r"cmp::min$|Ord::min$", fn):
+            return min(ieval(x, env) for x in e[2])
+        if re.search(r"cmp::max$|Ord::max$", fn):
+            return max(ieval(x, env) for x in e[2])
+        raise NoEval(fn)
+    if e[0] == "bin":
+        a, b = ieval(e[2], env), ieval(e[3], env)
+        op = e[1].replace("WithOverflow", "")
+        if op in ("Div", "Rem") and b == 0:
+            raise NoEval("division by zero")
+        return {"Add": a + b, "Sub": a - b, "Mul": a * b, "Div": a // b if b else 0, "Rem": a % b if b else 0, "Shl": a << b, "Shr": a >> b}.get(op) if op in ("Add", "Sub", "Mul", "Div", "Rem", "Shl", "Shr") else (_ for _ in ()).throw(NoEval(op))
+    raise NoEval(str(e)[:60])
+
+
+def align(ctx, facts):
+    ctx.rule("ALIGN: SendChannelConfig::new_with - for every (active = 2^k, record_size, configured read size) of a grid, the extracted total_capacity and both read_size arms satisfy total_capacity = active*record_size, read_size >= 1, read_size a multiple of record_size and total_capacity % read_size == 0 (a misaligned read size stalls the last partial batch); the two runtime assertions that turn a violation into a panic are present")
+    b = facts.bodies.get("helpers::gateway::send::SendChannelConfig::new_with")
+    if b is None:
+        ctx.missing("ALIGN", "SendChannelConfig::new_with")
+        return
+    ctx.count(bodies=1)
+    agg = None
+    for bb, idx, st in b.iter_assigns():
+        if st["r"]["k"] == "agg" and (st["r"].get("adt") or "").endswith("SendChannelConfig"):
+            agg = (bb, st["r"])
+    if agg is None:
+        ctx.missing("ALIGN", "SendChannelConfig aggregate")
+        return
+    adt = facts.adts.get(agg[1]["adt"])
+    names = [f["name"] for f in adt["variants"][0]["fields"]]
+    ops = dict(zip(names, agg[1]["ops"]))
+    cap_e = flow.expr_of(b, ops["total_capacity"], max_depth=40)
+    rs_op = ops["read_size"]
+    # read_size is a local assigned on two arms (indeterminate / determinate)
+    rs_e = flow.strip_casts(flow.expr_of(b, rs_op, max_depth=40))
+    arms = []
+    def leaf_local(e):
+        while e[0] == "call" and re.search(r"(TryInto::try_into|Result::<T, E>::unwrap|Into::into)$", e[1]):
+            e = flow.strip_casts(e[2][0])
+        return e
+    base = leaf_local(rs_e)
+    if base[0] == "place":
+        for bb, idx, st in b.iter_assigns():
+            if st["p"] == [base[1]] and st["r"]["k"] == "use":
+                arms.append((bb, flow.expr_of(b, st["r"]["o"], max_depth=40)))
+        for bb, t in b.calls():
+            if t["d"] == [base[1]]:
+                arms.append((bb, ("call", F.callee(t)[0], tuple(flow.expr_of(b, a, max_depth=40) for a in t["args"]))))
+    else:
+        arms.append((agg[0], rs_e))
+    if not arms:
+        ctx.missing("ALIGN", "read_size definition")
+        return
+    bad = None
+    try:
+        for k in range(0, 13):
+            A = 1 << k
+            for rs in list(range(1, 40)) + [64, 100, 256, 1000, 4096]:
+                for R in (1, 2, 3, 7, 8, 31, 32, 33, 64, 100, 255, 256, 1000, 2048, 4096, 65536):
+                    env = {("arg", 1, "active"): A, ("arg", 1, "read_size"): R, ("arg", 3): rs}
+                    cap = ieval(cap_e, env)
+                    if cap != A * rs:
+                        bad = bad or (A, rs, R, f"total_capacity = {cap}, expected active*record_size = {A * rs}")
+                    for abb, ae in arms:
+                        v = ieval(ae, env)
+                        if v < 1 or v % rs or cap % v:
+                            bad = bad or (A, rs, R, f"read_size = {v} with total_capacity = {cap}")
+    except NoEval as u:
+        ctx.ob("ALIGN", "new_with:formula", False, f"cannot evaluate the capacity/read-size formula ({u})", site_of(b))
+        bad = False
+    if bad is not False:
+        ctx.ob("ALIGN", "new_with:formula", bad is None, f"aligned for the whole grid ({len(arms)} read_size arm(s))" if bad is None else f"active={bad[0]}, record_size={bad[1]}, configured read_size={bad[2]}: {bad[3]} - the read size is not a divisor of the capacity / not a multiple of the record size, so the tail of the buffer is never flushed (or a record is split)", site_of(b, agg[0]))
+    # runtime assertions
+    asserts = {"capacity>=active*record": False, "capacity%read_size==0": False}
+    panics = {bb for bb, t in b.calls() if t["t"] is None}
+    for tgt, f in flow.edge_guards(b):
+        if not any(pb in b.reachable(tgt, avoid=frozenset(x for x in [agg[0]])) for pb in panics):
+            continue
+        s_ = str(f)
+        if f[0] == "Lt" and "NonZero::<T>::get" in s_ and "'Mul'" in s_ and "active" in s_:
+            asserts["capacity>=active*record"] = True
+        if f[0] == "Ne" and "'Rem'" in s_ and "('const', 0)" in s_:
+            asserts["capacity%read_size==0"] = True
+    for k_, v in asserts.items():
+        ctx.ob("ALIGN", f"new_with:assert:{k_}", v, "violations panic at channel creation instead of stalling later" if v else f"the runtime assertion `{k_}` is gone: a misconfigured channel would stall silently", site_of(b))
